@@ -74,6 +74,16 @@ def make_class(r):
     base_ns["__annotations__"] = base_ann
     ns["__annotations__"] = ann
     bases = (type("Base", (), base_ns),) if base_ann else ()
+    if bases and r.random() < 0.5:
+        # the base is itself a dataset class, and it is used before the child is (history on the class objects)
+        parent = datasetclass(bases[0])
+        try:
+            parent.keys({"A": 1, "B": 2, "C": 3, "S": {"X": 1, "Y": 2}, "T": {"X": 3}})
+            parent.explain({})
+            parent({"A": 1, "B": 2, "C": 3, "S": {"X": 1, "Y": 2}, "T": {"X": 3}})
+        except Exception:  # noqa: BLE001
+            pass
+        bases = (parent,)
     cls = datasetclass(type("DC", bases, ns))
     return cls, members, {**base_ns, **ns}
 
